@@ -132,6 +132,135 @@ theorem copy_independent {cs : List ClassDesc} {h h1 : Heap} {a c : Nat} (W : Wo
 -- non-vacuity: the example history changes what is seen through `a`
 example : view exH 2 (.ref exA.2) ≠ view exB.1 2 (.ref exA.2) := by decide
 
+/-! ## Interleaved histories with re-synchronisation
+
+After a copy (or between siblings) the two sides may be mutated in any interleaving, and a step through one side may
+*read* the other side — `dup.Y = orig.Y`, `dup['Y'] = orig['Y']`, `dup.replace_values(Y=orig.Y)`,
+`dup.values = orig.values`, `dup.Y = orig.Y[:]`, `dup.Y = list(orig.Y)` (`Op.assignFrom`: element values are copied
+into the existing array, or a new array is built from them; the passed array itself is never stored).  Disjointness
+of the two reaches is an invariant of every such history, so at every point a further step through one side is
+invisible through the other. -/
+
+/-- `(true, s)`: step `s` through `r1`; `(false, s)`: through `r2`. -/
+def runBoth (h : Heap) (r1 r2 : Nat) : List (Bool × Step) → Heap
+  | [] => h
+  | (true, s) :: rest => runBoth (applyStep h r1 s) r1 r2 rest
+  | (false, s) :: rest => runBoth (applyStep h r2 s) r1 r2 rest
+
+/-- **interleaved_disjoint.**  "No shared cell between the two objects" is preserved by every interleaved history,
+    cross-assignments included. -/
+theorem interleaved_disjoint {r1 r2 : Nat} : ∀ (hist : List (Bool × Step)) (h : Heap), WF h → r1 < h.length →
+    r2 < h.length → Disjoint h r1 r2 →
+    WF (runBoth h r1 r2 hist) ∧ h.length ≤ (runBoth h r1 r2 hist).length ∧ Disjoint (runBoth h r1 r2 hist) r1 r2 := by
+  intro hist
+  induction hist with
+  | nil => intro h wf _ _ dj; exact ⟨wf, Nat.le_refl _, dj⟩
+  | cons bs rest ih =>
+    intro h wf h1 h2 dj
+    obtain ⟨b, s⟩ := bs
+    cases b with
+    | true =>
+      have F := framed_step wf h1 h2 dj s
+      have := F.len
+      obtain ⟨w, l, d⟩ := ih (applyStep h r1 s) F.wf (by omega) (by omega) F.disj
+      exact ⟨w, by simp only [runBoth]; omega, d⟩
+    | false =>
+      have F := framed_step wf h2 h1 (disjoint_symm dj) s
+      have := F.len
+      obtain ⟨w, l, d⟩ := ih (applyStep h r2 s) F.wf (by omega) (by omega) (disjoint_symm F.disj)
+      exact ⟨w, by simp only [runBoth]; omega, d⟩
+
+/-- **interleaved_independent.**  After any interleaved history (with cross-assignments), one more step through
+    either side leaves every observation through the other side unchanged. -/
+theorem interleaved_independent {h : Heap} {r1 r2 : Nat} (wf : WF h) (h1 : r1 < h.length) (h2 : r2 < h.length)
+    (dj : Disjoint h r1 r2) (hist : List (Bool × Step)) (s : Step) (n : Nat) :
+    view (applyStep (runBoth h r1 r2 hist) r1 s) n (.ref r2) = view (runBoth h r1 r2 hist) n (.ref r2) ∧
+    view (applyStep (runBoth h r1 r2 hist) r2 s) n (.ref r1) = view (runBoth h r1 r2 hist) n (.ref r1) := by
+  obtain ⟨w, l, d⟩ := interleaved_disjoint hist h wf h1 h2 dj
+  exact ⟨view_of_same n r2 (framed_step w (by omega) (by omega) d s).same,
+    view_of_same n r1 (framed_step w (by omega) (by omega) (disjoint_symm d) s).same⟩
+
+/-- The same for interleaved histories of public operations. -/
+def runBothOps (h : Heap) (r1 r2 : Nat) : List (Bool × Op) → Heap
+  | [] => h
+  | (true, op) :: rest => runBothOps (applyOp h r1 op) r1 r2 rest
+  | (false, op) :: rest => runBothOps (applyOp h r2 op) r1 r2 rest
+
+theorem runBoth_append (r1 r2 : Nat) : ∀ (a b : List (Bool × Step)) (h : Heap),
+    runBoth h r1 r2 (a ++ b) = runBoth (runBoth h r1 r2 a) r1 r2 b := by
+  intro a
+  induction a with
+  | nil => intro b h; rfl
+  | cons x xs ih =>
+    intro b h
+    obtain ⟨c, s⟩ := x
+    cases c <;> simp only [List.cons_append, runBoth] <;> exact ih b _
+
+theorem runBoth_side (r1 r2 : Nat) (c : Bool) : ∀ (steps : List Step) (h : Heap),
+    runBoth h r1 r2 (steps.map fun s => (c, s)) = run h (if c then r1 else r2) steps := by
+  intro steps
+  induction steps with
+  | nil => intro h; rfl
+  | cons s ss ih => intro h; cases c <;> simp only [List.map_cons, runBoth, run] <;> exact ih _
+
+theorem runBothOps_eq (r1 r2 : Nat) : ∀ (ops : List (Bool × Op)) (h : Heap),
+    runBothOps h r1 r2 ops = runBoth h r1 r2 (ops.flatMap fun bo => (opSteps bo.2).map fun s => (bo.1, s)) := by
+  intro ops
+  induction ops with
+  | nil => intro h; rfl
+  | cons x xs ih =>
+    intro h
+    obtain ⟨c, op⟩ := x
+    simp only [List.flatMap_cons, runBoth_append, runBoth_side]
+    cases c <;> simp only [runBothOps, applyOp] <;> exact ih _
+
+/-- **interleaved_independent_ops.**  After any interleaving of public operations on the two sides — element
+    writes, rebinding, `add_variable`, list mutations, tracing, and whole-variable assignment *from the other side* —
+    the two sides are still disjoint and a further operation on one side is invisible through the other. -/
+theorem interleaved_independent_ops {h : Heap} {r1 r2 : Nat} (wf : WF h) (h1 : r1 < h.length) (h2 : r2 < h.length)
+    (dj : Disjoint h r1 r2) (ops : List (Bool × Op)) :
+    Disjoint (runBothOps h r1 r2 ops) r1 r2 ∧
+    ∀ (op : Op) (n : Nat),
+      view (applyOp (runBothOps h r1 r2 ops) r1 op) n (.ref r2) = view (runBothOps h r1 r2 ops) n (.ref r2) ∧
+      view (applyOp (runBothOps h r1 r2 ops) r2 op) n (.ref r1) = view (runBothOps h r1 r2 ops) n (.ref r1) := by
+  rw [runBothOps_eq]
+  obtain ⟨w, l, d⟩ := interleaved_disjoint _ h wf h1 h2 dj
+  refine ⟨d, fun op n => ⟨?_, ?_⟩⟩
+  · exact (disjoint_frame w (by omega) (by omega) d (opSteps op)).2.2.1 n
+  · exact (disjoint_frame w (by omega) (by omega) (disjoint_symm d) (opSteps op)).2.2.1 n
+
+/-- **copy_resync_independent.**  The statement for a copy: after `c = a.copy()` and any interleaved history,
+    including `c.Y = a.Y` in every spelling, the original and the copy still share nothing. -/
+theorem copy_resync_independent {cs : List ClassDesc} {h h1 : Heap} {a c : Nat} (W : WorldOK cs h)
+    (ha : a < h.length) (hc : copyRoot cs h a = some (h1, c)) (ops : List (Bool × Op)) :
+    Disjoint (runBothOps h1 a c ops) a c ∧
+    ∀ (op : Op) (n : Nat),
+      view (applyOp (runBothOps h1 a c ops) a op) n (.ref c) = view (runBothOps h1 a c ops) n (.ref c) ∧
+      view (applyOp (runBothOps h1 a c ops) c op) n (.ref a) = view (runBothOps h1 a c ops) n (.ref a) := by
+  obtain ⟨dj, _, wf1, ha1, hc1⟩ := copy_fresh W ha hc
+  exact interleaved_independent_ops wf1 ha1 hc1 dj ops
+
+/-- What the cross-assignment stores: the element values of the source, in the target's own array object. -/
+theorem assignFrom_inplace_copies_values {h : Heap} {root l src : Nat} {x : String} {o so : Obj}
+    (hn : nav h root ["_" ++ x] = some l) (ho : h[l]? = some o) (hs : h[src]? = some so) :
+    (applyOp h root (.assignFrom x src true))[l]? = some ⟨o.kind, immSlots so.slots⟩ := by
+  obtain ⟨hl, he⟩ := List.getElem?_eq_some_iff.mp ho
+  simp [applyOp, opSteps, run, applyStep, hn, applyEdit, ho, listSrcLoc, hs, withSlots, hl, he]
+
+-- non-vacuity: sibling `b` re-synchronises `Y` from `a` (both spellings), then `a` changes `Y[0]`: `b` keeps its value
+def exSrc : Nat := (nav exB.1 exA.2 ["_Y"]).getD 0
+def exSync : Heap := runBothOps exB.1 exA.2 exB.2
+  [(true, .setCell "Y" 0 (.int 7)), (false, .assignFrom "Y" exSrc true), (false, .assignFrom "C" exSrc false)]
+set_option maxRecDepth 8000 in
+example : (nav exSync exB.2 ["_Y"]).map (fun l => view exSync 1 (.ref l)) =
+    (nav exSync exA.2 ["_Y"]).map (fun l => view exSync 1 (.ref l)) := by decide
+set_option maxRecDepth 8000 in
+example : nav exSync exB.2 ["_Y"] ≠ nav exSync exA.2 ["_Y"] ∧ nav exSync exB.2 ["_C"] ≠ nav exSync exA.2 ["_Y"] := by
+  decide
+set_option maxRecDepth 8000 in
+example : view (applyOp exSync exA.2 (.setCell "Y" 0 (.int 9))) 3 (.ref exB.2) = view exSync 3 (.ref exB.2) := by
+  decide
+
 /-! ## Sibling instances and the class -/
 
 /-- **siblings_disjoint.**  Two instances of one class (constructor arguments immutable, i.e. not shared by the
